@@ -191,14 +191,14 @@ class Capture:
         ep.send = send
 
 
-def know(nodes, cid):
+def know(nodes, cid):     # NB: an overlay may own its Network (DHTCommunity ignores the one it is given): use overlay.network
     from ipv8.peer import Peer
     for n in nodes:
         for o in nodes:
             if o is not n:
                 p = Peer(o.my_peer.public_key, o.endpoint.wan_address)
-                n.network.add_verified_peer(p)
-                n.network.discover_services(p, [cid])
+                n.overlay.network.add_verified_peer(p)
+                n.overlay.network.discover_services(p, [cid])
 
 
 async def sc_intro(cap, cls, curve):
@@ -209,8 +209,8 @@ async def sc_intro(cap, cls, curve):
     a, b, c = nodes
     cid = b.overlay.community_id
     pc = Peer(c.my_peer.public_key, c.endpoint.wan_address)
-    b.network.add_verified_peer(pc)
-    b.network.discover_services(pc, [cid])
+    b.overlay.network.add_verified_peer(pc)
+    b.overlay.network.discover_services(pc, [cid])
     a.overlay.walk_to(b.endpoint.wan_address)
     await pump()
     a.overlay.endpoint.send(b.endpoint.wan_address,
@@ -476,6 +476,60 @@ def mutants_of(ctx: Ctx, pk: dict, pool: list, tables_by_name: dict, other_keys:
     return out
 
 
+def identity_cases(ctx: Ctx, pk: dict):
+    """Who is the Peer?  An AUTHENTIC datagram of a fresh key B (the captured datagram with B's key substituted and
+    re-signed by B) is delivered while the receiver's Network is in each combination of
+        signer B:  unknown | already verified (recorded at address R)
+        source  :  never seen | the address at which ANOTHER verified peer A is recorded | R
+    The handler must be handed B in every combination, and only B may become verified."""
+    from ipv8.keyvault.crypto import _CURVES
+    from ipv8.messaging.interfaces.udp.endpoint import UDPv4Address
+    r = rust()
+    rng = ctx.rng
+    d = pk["data"]
+    sp = spec_eval(d)
+    if sp["canon"] is None or sp["n"] >= len(d) - 25:
+        return []
+    kl, n = len(sp["key_field"]), sp["n"]
+    out = []
+
+    def addr():
+        return UDPv4Address("10.%d.%d.%d" % (rng.randrange(1, 255), rng.randrange(256), rng.randrange(1, 255)),
+                            rng.randrange(1024, 65535))
+    for signer, src in (("unknown", "fresh"), ("unknown", "other-peers-address"), ("known", "own-recorded-address"),
+                        ("known", "fresh"), ("known", "other-peers-address")):
+        kb_ = r.PrivateKey.generate(_CURVES[pk["curve"]])
+        ka_ = r.PrivateKey.generate(_CURVES[rng.choice(["curve25519", pk["curve"]])])
+        bpub, apub = bytes(kb_.pub().key_to_bin()), bytes(ka_.pub().key_to_bin())
+        body = d[:23] + len(bpub).to_bytes(2, "big") + bpub + d[25 + kl:-n]
+        data = body + bytes(kb_.signature(body))
+        x, rr = addr(), addr()
+        pre = []
+        if src == "other-peers-address":
+            pre.append((apub, x))
+        if signer == "known":
+            pre.append((bpub, x if src == "own-recorded-address" else rr))
+        out.append({"target": pk["overlay"], "data": data, "op": "identity-matrix", "cls": f"signer-{signer}/src-{src}",
+                    "origin": pk["overlay"], "curve": pk["curve"], "src": x, "pre": pre})
+    return out
+
+
+def apply_pre(node, pre):
+    from ipv8.peer import Peer
+    for pub, a in pre:
+        p = Peer(pub, a)
+        node.overlay.network.add_verified_peer(p)
+        node.overlay.network.discover_services(p, [node.overlay.community_id])
+
+
+def undo_pre(node, pre, extra_keys=()):
+    net = node.overlay.network
+    for pub in [k for k, _ in pre] + list(extra_keys):
+        p = net.verified_by_public_key_bin.get(pub)
+        if p is not None:
+            net.remove_peer(p)
+
+
 # ------------------------------------------------------------------------------------------------ receivers
 class Receivers:
     def __init__(self, tables, obs: Observer):
@@ -526,7 +580,7 @@ def decode_bit(node, classes, buf: bytes) -> bool:
 
 
 async def deliver(node, obs: Observer, src, data: bytes):
-    net = node.network
+    net = node.overlay.network
     before = set(net.verified_by_public_key_bin.keys())
     before_peers = {bytes(p.public_key.key_to_bin()) for p in net.verified_peers}
     obs.events = []
@@ -603,6 +657,9 @@ async def run_async(ctx: Ctx, use_model: bool, scale: dict):
         for tgt, data, op, cls_name in mutants_of(ctx, p, signed, tbn, other_keys, scale["flips"], bool(every)):
             cases.append({"target": tgt, "data": data, "op": op, "cls": cls_name, "origin": p["overlay"],
                           "curve": p["curve"], "src": p["src"]})
+    for i, p in enumerate(signed):
+        if i % scale["identity_stride"] == 0:
+            cases.extend(identity_cases(ctx, p))
     # unsigned datagrams are delivered unmodified (they must keep working and must never yield a Peer)
     uns = [p for p in packets if (p["overlay"], p["data"][22]) not in required]
     for p in uns[:scale["unsigned_samples"]]:
@@ -643,9 +700,14 @@ async def run_async(ctx: Ctx, use_model: bool, scale: dict):
             sp = spec_eval(data)
             if sp["canon"] is not None:
                 keys_seen[sp["key_field"]] = (sp["canon"], sp["n"])
+            pre = c.get("pre") or []
+            if pre:
+                apply_pre(node, pre)
             net_hit = None
+            pa_ = node.overlay.network.get_verified_by_address(tuple(c["src"]) if not hasattr(c["src"], "_fields") else c["src"])
+            net_addr = bytes(pa_.public_key.key_to_bin()) if pa_ is not None else None
             if drv and c.get("m_kf") is not None:
-                pr = node.network.verified_by_public_key_bin.get(c["m_kf"])
+                pr = node.overlay.network.verified_by_public_key_bin.get(c["m_kf"])
                 net_hit = bytes(pr.public_key.key_to_bin()) if pr is not None else None
             dec = "00"
             if drv and h is not None:
@@ -659,6 +721,8 @@ async def run_async(ctx: Ctx, use_model: bool, scale: dict):
                           ("1" if decode_bit(node, [GlobalTimeDistributionPayload, mp.IntroductionRequestPayload],
                                              c["m_rem"]) else "0")
             events, new_keys = await deliver(node, obs, c["src"], data)
+            if pre:
+                undo_pre(node, pre, [sp["canon"]] if sp["canon"] else [])
 
             # -- what the implementation did
             entered = [(lab, second, rest, name) for (lab, second, rest, _, name) in events if lab[0] == "handler"]
@@ -686,7 +750,8 @@ async def run_async(ctx: Ctx, use_model: bool, scale: dict):
             is_req = reached and (tgt, data[22]) in required
             hname = h["name"] if h else "-"
             replay = {"overlay": tgt, "data": data.hex(), "src": list(c["src"]), "operator": c["op"],
-                      "position": c["cls"], "origin_overlay": c["origin"], "sender_curve": c["curve"]}
+                      "position": c["cls"], "origin_overlay": c["origin"], "sender_curve": c["curve"],
+                      "verified_before": [[k.hex(), list(a)] for k, a in pre]}
             any_entry = bool(entered) or (raw_entered and bool(avp))
             if any_entry and data[:22] != t["prefix"]:
                 ctx.oracle_fail("Community.on_packet:foreign-prefix",
@@ -709,7 +774,8 @@ async def run_async(ctx: Ctx, use_model: bool, scale: dict):
                                     f"{k.hex()[:24]}… which the delivered datagram does not authenticate ({c['op']})", replay)
             # -- bookkeeping
             ctx.count(f"op:{c['op']}")
-            ctx.count(f"pos:{c['op']}:{c['cls']}" if c["op"] in ("bitflip", "truncate") else f"sub:{c['op']}:{c['cls'][:12]}")
+            ctx.count(f"pos:{c['op']}:{c['cls']}" if c["op"] in ("bitflip", "truncate", "identity-matrix")
+                      else f"sub:{c['op']}:{c['cls'][:12]}")
             ctx.count(f"target:{tgt}")
             ctx.count(f"curve:{c['curve']}")
             ctx.count(f"kind:{h['kind'] if h else 'no-handler/foreign-prefix'}")
@@ -717,13 +783,14 @@ async def run_async(ctx: Ctx, use_model: bool, scale: dict):
             ctx.count(f"impl:{impl.split(' ')[0]}")
             ctx.count("len:%s" % ("<64" if len(data) < 64 else "<256" if len(data) < 256 else "<1024" if len(data) < 1024 else ">=1024"))
             ctx.case((tgt, data[22] if len(data) > 22 else -1, c["op"], c["cls"], c["curve"]), reached)
-            if len(ctx.samples) < 5 and c["op"] in ("bitflip", "key-substitution+resign", "prefix-swap"):
+            if len(ctx.samples) < 6 and c["op"] in ("key-substitution+resign", "prefix-swap", "identity-matrix") \
+                    and not any(x["operator"] == c["op"] and x["position"] == c["cls"] for x in ctx.samples):
                 ctx.sample({"target": tgt, "msg_id": data[22], "operator": c["op"], "position": c["cls"],
                             "spec_authentic": sp["authentic"], "implementation": impl.split(" ")[0], "bytes": len(data)})
             if drv:
                 pa = "none" if not c.get("m_parse") else f"{c['m_parse'][1]}:{c['m_parse'][2].hex()}"
                 lines.append(f"recv {tgt} {data.hex() or '-'} {pa} {1 if c.get('m_verify') else 0} {dec} "
-                             f"{net_hit.hex() if net_hit else '-'}")
+                             f"{net_hit.hex() if net_hit else '-'} {net_addr.hex() if net_addr else '-'}")
                 expected.append((impl, c, h))
     finally:
         obs.stop()
@@ -758,7 +825,7 @@ async def run_async(ctx: Ctx, use_model: bool, scale: dict):
         if pc is None or pc[2] != canon:
             hyp["canon_violations"] += 1
     for name, node in recv.nodes.items():
-        for k, peer in node.network.verified_by_public_key_bin.items():
+        for k, peer in node.overlay.network.verified_by_public_key_bin.items():
             if bytes(peer.public_key.key_to_bin()) != bytes(k):
                 hyp["netok_violations"] += 1
     ctx.extra["hypothesis_checks"] = hyp
@@ -797,11 +864,11 @@ async def run_async(ctx: Ctx, use_model: bool, scale: dict):
 
 SCALES = {
     "quick": {"capture_rounds": 1, "per_pair": 1, "flips": 2, "every_byte_upto": 0, "every_byte_stride": 1,
-              "unsigned_samples": 40, "pack_cases": 20},
+              "unsigned_samples": 40, "pack_cases": 20, "identity_stride": 1},
     "thorough": {"capture_rounds": 4, "per_pair": 2, "flips": 8, "every_byte_upto": 1500, "every_byte_stride": 2,
-                 "unsigned_samples": 300, "pack_cases": 300},
+                 "unsigned_samples": 300, "pack_cases": 300, "identity_stride": 1},
     "search": {"capture_rounds": 2, "per_pair": 2, "flips": 4, "every_byte_upto": 0, "every_byte_stride": 1,
-               "unsigned_samples": 100, "pack_cases": 0},
+               "unsigned_samples": 100, "pack_cases": 0, "identity_stride": 1},
 }
 
 
@@ -831,9 +898,12 @@ async def replay(ctx: Ctx, rec: dict):
     recv = Receivers(tables, obs)
     node = recv.get(r["overlay"])
     data = bytes.fromhex(r["data"])
+    from ipv8.messaging.interfaces.udp.endpoint import UDPv4Address
+    src = UDPv4Address(*r.get("src", ("1.2.3.4", 5)))
+    apply_pre(node, [(bytes.fromhex(k), UDPv4Address(*a)) for k, a in r.get("verified_before", [])])
     obs.start()
     try:
-        events, new_keys = await deliver(node, obs, tuple(r.get("src", ("1.2.3.4", 5))), data)
+        events, new_keys = await deliver(node, obs, src, data)
     finally:
         obs.stop()
     sp = spec_eval(data)
